@@ -354,10 +354,80 @@ def failover_part(res):
                                                       "migrate, then one is destroyed: each reads and scans exactly its own entries"}
 
 
+def gen_conc_collision(rng, sid):
+    """two DMaps whose name+key concatenations coincide, read and written by clients that overlap in time"""
+    tag = "c19x%d" % sid
+    A, B = "c19ab", "c19a"                # A + K == B + "b" + K: the same bytes, hence the same hash, partition and owner
+    ka, kb = dmaplib.hx(tag[3:] + "c"), dmaplib.hx("b" + tag[3:] + "c")
+    n = rng.randrange(60, 120)
+    paths = ["emb@owner", "emb@other", "cc", "raw@owner"]
+    ca, cb = rng.choice(paths), rng.choice(paths)
+    opsa = [{"op": "put", "c": "emb@owner", "d": A, "k": ka, "v": dmaplib.hx("A-" + tag)}]
+    opsb = [{"op": "put", "c": "emb@owner", "d": B, "k": kb, "v": dmaplib.hx("B-" + tag)}]
+    opsa += [{"op": "get", "c": ca, "d": A, "k": ka} for _ in range(n)]
+    opsb += [{"op": "get", "c": cb, "d": B, "k": kb} for _ in range(n)]
+    # A's key is deleted half way: from then on its reader must see not-found while B's reader goes on seeing B's value
+    opsa += [{"op": "del", "c": ca, "d": A, "k": ka}] + [{"op": "get", "c": ca, "d": A, "k": ka} for _ in range(n // 2)]
+    opsb += [{"op": "get", "c": cb, "d": B, "k": kb} for _ in range(n // 2)]
+    return {"id": sid, "clients": [{"ops": opsa}, {"ops": opsb}, {"ops": list(opsa[1:n + 1])}], "_tag": tag}
+
+
+def judge_conc_collision(sc, r):
+    for ci, (cl, obs) in enumerate(zip(sc["clients"][:2], r["clients"][:2])):
+        want = cl["ops"][0]["v"]
+        deleted = False
+        for i, (op, ob) in enumerate(zip(cl["ops"], obs)):
+            if op["op"] in ("put", "del"):
+                if ob.get("r") != "ok":
+                    return "client %d: %s returned %s" % (ci, op["op"], ob.get("r"))
+                deleted = op["op"] == "del"
+            elif op["op"] == "get":
+                if deleted:
+                    if ob.get("r") != "notfound":
+                        return "client %d: Get of a deleted key of DMap %s returned %s %s (another DMap holds a value under a colliding name+key)" % (
+                            ci, op["d"], ob.get("r"), bytes.fromhex(ob.get("val") or "").decode("latin1"))
+                elif ob.get("r") != "ok" or ob.get("val") != want:
+                    return "client %d: Get on DMap %s returned %s %r, its only writer stored %r (the other DMap's key collides as name+key)" % (
+                        ci, op["d"], ob.get("r"), bytes.fromhex(ob.get("val") or "").decode("latin1"), bytes.fromhex(want).decode("latin1"))
+    return None
+
+
+def conc_part(res):
+    import conclib
+    groups = []
+    sid = 60000
+    for ci, cfg in enumerate([{"members": 1, "replicas": 1, "partitions": 7, "table": 1 << 16, "evict_workers": 1},
+                              {"members": 3, "replicas": 2, "partitions": 7, "table": 1 << 16, "evict_workers": 1}]):
+        scs = []
+        for j in range(4 if res.tier == "quick" else 30):
+            scs.append(gen_conc_collision(vlib.rng_for(res.seed, PID, "conc", ci, j), sid))
+            sid += 1
+        groups.append((cfg, scs))
+    results = conclib.run_groups(groups)
+    bad = 0
+    for cfg, scs in groups:
+        for sc in scs:
+            r = results[sc["id"]]
+            msg = judge_conc_collision(sc, r)
+            if msg:
+                bad += 1
+                if bad <= 2:
+                    res.violation({"kind": "impl-violates-property", "part": "conc-collision", "cluster": cfg,
+                                   "scenario": {k: v for k, v in sc.items() if not k.startswith("_")}, "impl_trace": r["clients"],
+                                   "predicate": {"name": "DMaps with colliding name+key never see each other's entries, also under overlapping reads", "verdict": msg},
+                                   "seed": res.seed})
+    res.coverage["overlapping_reads_on_colliding_names"] = {
+        "scenarios": sum(len(scs) for _, scs in groups), "failures": bad,
+        "rule": "DMaps 'c19ab' and 'c19a' with keys K and 'b'+K (the same name+key bytes, hence the same hash, partition and owner): each is written once by "
+                "its own client and then read 60-120 times through embedded / cluster / raw paths while the other one is read at the same time; one key is "
+                "deleted half way; every read returns its own DMap's value, the deleted key reads not-found"}
+
+
 def run(res):
     _run(res)
     if not getattr(res, "harness_error", None):
         failover_part(res)
+        conc_part(res)
 
 
 def _run(res):
@@ -390,4 +460,18 @@ def replay(res, path):
     _obj = _json.load(open(path))
     if _obj.get("part") == "failover":
         return replay_failover(res, _obj, path)
+    if _obj.get("part") == "conc-collision":
+        import conclib
+        ok, out = vlib.harness_build()
+        if not ok:
+            raise vlib.CheckError(out)
+        sc = dict(_obj["scenario"], id=0)
+        for attempt in range(3):
+            r = conclib.run_conc(_obj["cluster"], [sc])[0]
+            msg = judge_conc_collision(sc, r)
+            if msg:
+                print(msg)
+                print("VIOLATION property=%s replay=%s" % (res.pid, path))
+                return 1
+        return 0
     return dmapcheck.replay(res, path, judge)
